@@ -114,6 +114,9 @@ def run(pid, tier):
         for o in read_ndjson(out):
             chk.add("text_inputs")
             for entry, r in o["results"].items():
+                if r == "hang":
+                    chk.violation("%s does not return (20 s) on %s input %s of %d bytes" % (entry, "a token-mutated" if o["id"].startswith("T") else "a byte-mutated fixture", o["id"], o["len"]),
+                                  {"entry": entry, "text": alltexts[o["id"]], "result": r, "model_derived": o["id"].startswith("T")})
                 if r.startswith("panic"):
                     chk.violation("%s panics on %s input %s: %s" % (entry, "a token-mutated" if o["id"].startswith("T") else "a byte-mutated fixture", o["id"], r[:200]),
                                   {"entry": entry, "text": alltexts[o["id"]], "result": r, "model_derived": o["id"].startswith("T")})
@@ -132,7 +135,8 @@ def run(pid, tier):
         states, trans = res.distinct, res.generated
         # the listener automaton (spec/DslDoc.tla) has to explain what the real listener did on these documents too: contexts with
         # missing parts after error recovery, early returns, and - were there one - the callback at which the Go code would panic
-        nd = chk_dsl.doc_validate(chk, binary, sc, [{"id": k, "text": v, "src": ["none", 0, 0]} for k, v in list(texts.items()) + list(aux.items()) if len(v) < 30000],
+        stuck = {o["id"] for o in read_ndjson(out) if any(r in ("hang", "notrun") for r in o["results"].values())}
+        nd = chk_dsl.doc_validate(chk, binary, sc, [{"id": k, "text": v, "src": ["none", 0, 0]} for k, v in list(texts.items()) + list(aux.items()) if len(v) < 30000 and k not in stuck and not stuck],
                                   "token-mutated documents and byte-mutated fixtures")
 
         # ---- e. fga.mod: every path string of the ModFile.tla universe (all strings <= 4 over the path alphabet, each also with .fga
@@ -168,6 +172,9 @@ def run(pid, tier):
         for o in outs:
             chk.add("degenerate_models")
             for entry, r in o["results"].items():
+                if r == "hang":
+                    chk.violation("%s does not return (20 s) on %s input %s of %d bytes" % (entry, "a token-mutated" if o["id"].startswith("T") else "a byte-mutated fixture", o["id"], o["len"]),
+                                  {"entry": entry, "text": alltexts[o["id"]], "result": r, "model_derived": o["id"].startswith("T")})
                 if r.startswith("panic"):
                     chk.violation("%s panics on a degenerate model (base %d, holes %s): %s" % (entry, o["base"], o["holes"], r[:200]), {"entry": entry, "base": o["base"], "holes": o["holes"], "result": r})
         # TLC validates the recorded outcomes against the totality claim (panic strings are mapped to "panic")
